@@ -6,6 +6,7 @@ package c03
 
 import (
 	"crypto/sha256"
+	"crypto/sha512"
 	"encoding/json"
 	"fmt"
 	"hash"
@@ -49,7 +50,7 @@ type Case struct {
 	Prog     *prog.Program `json:"prog"`
 	Curve    string        `json:"curve"`
 	Backend  string        `json:"backend"`  // groth16 | plonk
-	HashOpt  string        `json:"hash_opt"` // default | sha256 | sha3 | keccak
+	HashOpt  string        `json:"hash_opt"` // default | sha256 | sha3 | keccak | sha512 | sha3-512 | sha384 | sha224
 	StatZK   bool          `json:"stat_zk"`
 	NbTasks  int           `json:"nb_tasks"`
 	BadOut   int           `json:"bad_out"` // -1: claim the true outputs; k: output k is claimed +Delta
@@ -65,6 +66,15 @@ func hashFn(name string) func() hash.Hash {
 		return sha3.New256
 	case "keccak":
 		return sha3.NewLegacyKeccak256
+	// digests longer / shorter than a field element: both sides must cut or pad them alike
+	case "sha512":
+		return sha512.New
+	case "sha3-512":
+		return sha3.New512
+	case "sha384":
+		return sha512.New384
+	case "sha224":
+		return sha256.New224
 	}
 	return nil
 }
@@ -274,7 +284,7 @@ func genCase(curves []string) *rapid.Generator[Case] {
 		p := zk.GenProvable(cfg).Draw(t, "prog")
 		c := Case{Prog: p, Curve: cn}
 		c.Backend = rapid.SampledFrom([]string{"groth16", "plonk"}).Draw(t, "backend")
-		c.HashOpt = rapid.SampledFrom([]string{"default", "default", "sha256", "sha3", "keccak"}).Draw(t, "hash")
+		c.HashOpt = rapid.SampledFrom([]string{"default", "default", "sha256", "sha3", "keccak", "sha512", "sha3-512", "sha384", "sha224"}).Draw(t, "hash")
 		c.StatZK = rapid.IntRange(0, 3).Draw(t, "statzk") == 0
 		c.NbTasks = rapid.SampledFrom([]int{0, 0, 1, 2, 16}).Draw(t, "nbtasks")
 		c.BadOut = -1
@@ -287,7 +297,7 @@ func genCase(curves []string) *rapid.Generator[Case] {
 	})
 }
 
-const rule = "rapid-generated provable programs biased to edge shapes (one op, no secret input, 0-4 commitments, constants) x 7 curves x {groth16, plonk} x consistent hash options (default/sha256/sha3/keccak for hash-to-field, challenge, KZG folding) x statistical-ZK x solver task counts; assignment classified by the reference interpreter (optionally with one wrong claimed output). Satisfying: Setup, Prove, Verify (Witness.Public() and public-only witness) all succeed, and a verifier with a different hash option rejects. Non-satisfying: Prove returns an error (non-return = 240 s of CPU consumed, or an idle process: never the wall clock alone), no panic. Non-trivial: system has >=1 constraint. Distinct: SHA-256 of the case JSON."
+const rule = "rapid-generated provable programs biased to edge shapes (one op, no secret input, 0-4 commitments, constants) x 7 curves x {groth16, plonk} x consistent hash options (default/sha256/sha3/keccak and digests wider or narrower than a field element: sha512/sha3-512/sha384/sha224, for hash-to-field, challenge, KZG folding) x statistical-ZK x solver task counts; assignment classified by the reference interpreter (optionally with one wrong claimed output). Satisfying: Setup, Prove, Verify (Witness.Public() and public-only witness) all succeed, and a verifier with a different hash option rejects. Non-satisfying: Prove returns an error (non-return = 240 s of CPU consumed, or an idle process: never the wall clock alone), no panic. Non-trivial: system has >=1 constraint. Distinct: SHA-256 of the case JSON."
 
 func TestCompleteness(t *testing.T) {
 	rec := ev.Get(ID)
